@@ -58,6 +58,15 @@ def F(x):
 
 
 # ====================================================================================================== builders
+SETTERS = [False]
+
+
+def _mark_setters(sh):
+    if sh["k"] == "group":
+        return dict(sh, m=[_mark_setters(m) for m in sh["m"]])
+    return dict(sh, setters=True)
+
+
 def build_goal_position(p, index, lanelet_map):
     if p["k"] == "lanelets":
         polys = []
@@ -67,7 +76,7 @@ def build_goal_position(p, index, lanelet_map):
             polys.append(lanelet.polygon)
         lanelet_map[index] = list(p["ids"])
         return ShapeGroup(polys)
-    return G.build_shape(p)
+    return G.build_shape(_mark_setters(p) if SETTERS[0] else p)
 
 
 def build_goal_state(gs, index, lanelet_map):
@@ -300,7 +309,11 @@ def check_case(r, ctx):
                 if not geom.is_simple(gg.lanelet_ring(ll)):
                     ctx.discard("lanelet-ring-not-simple")
     geos = [goal_geo(gs["pos"]) if gs["pos"] is not None else None for gs in goal]
-    region = build_region(goal)
+    SETTERS[0] = r.get("route") == "shapes-via-setters"   # goal shapes that got their values through the setters
+    try:
+        region = build_region(goal)
+    finally:
+        SETTERS[0] = False
     if r.get("route") == "deepcopy":       # the goal region reaches the check as a copy (planning problems are copied)
         region = copy.deepcopy(region)
     elif r.get("route") == "pickle":
@@ -424,7 +437,7 @@ OPTS = {
 
 
 def strategy(name):
-    return lambda tier: st.tuples(gg.case_strategy(OPTS[name]), st.sampled_from([None, None, None, "deepcopy", "pickle", "moved-and-back"])
+    return lambda tier: st.tuples(gg.case_strategy(OPTS[name]), st.sampled_from([None, None, None, "deepcopy", "pickle", "moved-and-back", "shapes-via-setters"])
                                   ).map(lambda t: dict(t[0], route=t[1]))
 
 
